@@ -12,8 +12,9 @@
    same verdict and the same canonical value, else the case is a mismatch.
    The one oracle left is the float64 view of a number literal that the model
    does not decide itself (Json.lit_class = NCOracle: the value is not an
-   integer, or is an integer from 2^53 up, or the integer part has more than
-   800 digits; op json_num of the stdlib oracle: strconv.ParseFloat).  The
+   integer, or is an integer from 2^53 up, or the literal is outside the digit
+   budget - integer part of more than 800 digits, or exponent magnitude >= 10000
+   on a non-zero mantissa; op json_num of the stdlib oracle: strconv.ParseFloat).  The
    parser is Json.json_parse_x = json_parse_text (num_x oracle): for every
    other literal (an integer below 2^53 in ANY spelling, zero, underflow,
    overflow) the oracle is NOT consulted - num_of_literal fails if it is asked
